@@ -68,6 +68,11 @@ var c19TZ = ""
 // c19Trace, when set, names the file the next runGT writes an strace -f trace to.
 var c19Trace = ""
 
+// c19NoHome, when set, makes the next runGT run the command without HOME and
+// XDG_CONFIG_HOME (no user configuration directory can be determined), in
+// the working directory it names.
+var c19NoHome = ""
+
 func runGT(cfgHome string, args string) (string, string, error) {
 	cmd := exec.Command(os.Args[0], "-test.run=^TestVerifC19Child$")
 	if c19Trace != "" {
@@ -82,6 +87,11 @@ func runGT(cfgHome string, args string) (string, string, error) {
 		env = append(env, e)
 	}
 	cmd.Env = append(env, "XDG_CONFIG_HOME="+cfgHome, "HOME="+cfgHome, "VERIF_GT_ARGS="+args)
+	if c19NoHome != "" {
+		cmd.Env = append(env, "VERIF_GT_ARGS="+args)
+		cmd.Dir = c19NoHome
+		c19NoHome = ""
+	}
 	if c19TZ != "" {
 		cmd.Env = append(cmd.Env, "TZ="+c19TZ)
 	}
@@ -359,6 +369,38 @@ func TestVerifC19(t *testing.T) {
 			}
 			_ = out
 		}
+		if i%2 == 0 {
+			// no configuration directory at all (HOME and XDG_CONFIG_HOME unset: cron,
+			// env -i, a stripped container): the commands have nothing to work on, and
+			// what happens to lie in the working directory is none of their business
+			wd := filepath.Join(home, "workdir")
+			for _, sub := range []string{"local", "upload", "go/telemetry/local", "go/telemetry/upload"} {
+				os.MkdirAll(filepath.Join(wd, sub), 0o777)
+				mk(filepath.Join(wd, sub), dataNames, 0.6)
+				mk(filepath.Join(wd, sub), reportNames, 0.6)
+			}
+			os.WriteFile(filepath.Join(wd, "mode"), []byte("local 2023-01-01"), 0o644)
+			os.WriteFile(filepath.Join(wd, "go/telemetry/mode"), []byte("local 2023-01-01"), 0o644)
+			for _, c := range []string{"clean", "on", "off", "local", "env", "clean"} {
+				before := c19snap(wd)
+				c19NoHome = wd
+				runGT(home, c)
+				after := c19snap(wd)
+				res.Hit("no-config-dir:" + c)
+				for pth, b := range before {
+					if a, ok := after[pth]; !ok || a != b {
+						res.Violate("no-config-dir-touched-workdir:"+c, fmt.Sprintf("%q run without HOME/XDG_CONFIG_HOME changed %s in its working directory (before %+v, after %+v present=%v)", c, pth, b, a, ok), verifrt.CaseReplay(i, map[string]any{"cmd": c}))
+						break
+					}
+				}
+				for pth := range after {
+					if _, ok := before[pth]; !ok {
+						res.Violate("no-config-dir-touched-workdir:"+c, fmt.Sprintf("%q run without HOME/XDG_CONFIG_HOME created %s in its working directory", c, pth), verifrt.CaseReplay(i, map[string]any{"cmd": c}))
+						break
+					}
+				}
+			}
+		}
 		if i < 2 {
 			var paths []string
 			for p := range c19snap(home) {
@@ -372,7 +414,7 @@ func TestVerifC19(t *testing.T) {
 		}
 		os.RemoveAll(home)
 	}
-	res.Require("unusual-config-dir-name", "strace-witness", "syscall-on-permitted-target:clean", "syscall-on-permitted-target:on", "clean-checked", "mode-already-set", "mode-changed", "mode-shrinks", "cmd:env")
+	res.Require("no-config-dir:clean", "no-config-dir:on", "unusual-config-dir-name", "strace-witness", "syscall-on-permitted-target:clean", "syscall-on-permitted-target:on", "clean-checked", "mode-already-set", "mode-changed", "mode-shrinks", "cmd:env")
 	if _, err := os.Stat("/usr/share/zoneinfo/Pacific/Kiritimati"); err == nil {
 		res.Require("zone-with-other-date")
 	}
